@@ -22,7 +22,7 @@ def mine(key, theorem):
 
 
 def run(ctx):
-    pool_check.run_pool_check(ctx, 'C13', 240, 1500, 'Props/C13.v', mine)
+    pool_check.run_pool_check(ctx, 'C13', 240, 3000, 'Props/C13.v', mine)
 
 
 def replay(ctx, rp):
